@@ -65,10 +65,33 @@ Proof. reflexivity. Qed.
 Example cache_on_definition_rejected :
   field_write_ok shared_state_allow
     {| fw_pkg := "flows/definition"; fw_func := "flow.Nodes"; fw_type := "flows/definition.flow"; fw_field := "nodeMap";
-       fw_root := RtRecv; fw_ctor := false; fw_under_lock := false; fw_nil_guard := true; fw_in_once := false |} = false.
+       fw_root := RtRecv; fw_ctor := CkNone; fw_under_lock := false; fw_nil_guard := true; fw_in_once := false |} = false.
 Proof. reflexivity. Qed.
 
 Example lazy_shared_var_rejected :
-  shared_var_ok {| sv_pkg := "excellent/types"; sv_var := "XObjectEmpty"; sv_type := "excellent/types.XObject";
-                   sv_ctor := "NewXLazyObject"; sv_eager := false; sv_mutators := ["XObject.initialize"] |} = false.
+  shared_var_ok shared_state_allow
+    {| sv_pkg := "excellent/types"; sv_var := "XObjectEmpty"; sv_type := "excellent/types.XObject";
+       sv_ctor := "NewXLazyObject"; sv_eager := false;
+       sv_mutators := [ {| mu_name := "XObject.initialize"; mu_lazy := true; mu_callers := 2 |} ] |} = false.
 Proof. reflexivity. Qed.
+
+(* a plain setter of a package-level instance that somebody calls *)
+Example called_setter_on_shared_var_rejected :
+  shared_var_ok shared_state_allow
+    {| sv_pkg := "excellent/types"; sv_var := "XObjectEmpty"; sv_type := "excellent/types.XObject";
+       sv_ctor := "NewXObject"; sv_eager := true;
+       sv_mutators := [ {| mu_name := "XObject.SetMarshalOptions"; mu_lazy := false; mu_callers := 1 |} ] |} = false.
+Proof. reflexivity. Qed.
+
+(* the lazy-initialisation pattern inside a function that is a constructor by name only, through its argument *)
+Example cache_on_definition_in_ctor_rejected :
+  field_write_ok shared_state_allow
+    {| fw_pkg := "flows"; fw_func := "parseQuery"; fw_type := "flows.Group"; fw_field := "parsedQuery";
+       fw_root := RtParam; fw_ctor := CkNamed; fw_under_lock := false; fw_nil_guard := true; fw_in_once := false |} = false
+  /\ field_write_ok shared_state_allow
+    {| fw_pkg := "flows"; fw_func := "parseQuery"; fw_type := "flows.Group"; fw_field := "parsedQuery";
+       fw_root := RtParam; fw_ctor := CkNamed; fw_under_lock := false; fw_nil_guard := false; fw_in_once := false |} = false
+  /\ field_write_ok shared_state_allow
+    {| fw_pkg := "flows"; fw_func := "Group.UnmarshalJSON"; fw_type := "flows.Group"; fw_field := "parsedQuery";
+       fw_root := RtRecv; fw_ctor := CkUnmarshal; fw_under_lock := false; fw_nil_guard := true; fw_in_once := false |} = false.
+Proof. repeat split; reflexivity. Qed.
